@@ -70,8 +70,8 @@ PROPS = {
     ),
     "C03": dict(
         level="proof",
-        extra_lean_targets=["LdpcV.Props.C03Tree"],
-        extra_prop_files=["LdpcV/Props/C03Tree.lean"],
+        extra_lean_targets=["LdpcV.Props.C03Tree", "LdpcV.Props.C03Code"],
+        extra_prop_files=["LdpcV/Props/C03Tree.lean", "LdpcV/Props/C03Code.lean"],
         trusted_base=[KERNEL, CORR,
                       "the textbook reference lean/LdpcV/Spec/BPRef.lean (stateless flooding / layered schedules with name-based message lookup) is the "
                       "specification; the posterior of the exactness clause is the brute-force marginal over all codewords (lean/LdpcV/Model/ArithIdeal.lean: mass, posterior); the contract `WellBehaved` / `WellBehavedLayer` (lean/LdpcV/Spec/DecoderSpec.lean) is what 'any arithmetic' means: rules emit "
@@ -91,8 +91,9 @@ PROPS = {
               "count of non-compared cases in correspondence.not_compared)"),
         assumptions=COMMON_ASSUME,
         partial=["exactness clause: proved over the reals for the ideal sum-product arithmetic plugged into the same textbook schedules (C03Tree: sharp bound 2t >= "
-                 "distance to the farthest bit of the tree, both schedules, hence 'at least diameter iterations'); the floating-point arithmetics Phi/Tanh (rounding, "
-                 "the 1e-30 guard, the tanh clamps) are tied to it numerically only (forest family above), not by a theorem"],
+                 "distance to the farthest bit of the tree, both schedules, hence 'at least diameter iterations'); C03Code carries it over to the rule TEXT of the code for the tanh "
+                 "arithmetic (clamped tanh, product of the others, 2 atanh; both schedules) at real semantics whenever sum |LLR| <= 2 * clamp, i.e. the clamp cannot act; "
+                 "the phi rule (1e-30 guard) and IEEE rounding are tied to it numerically only (forest family above), not by a theorem"],
     ),
     "C10": dict(
         level="proof",
